@@ -97,7 +97,13 @@ pub fn build_history_opts(spec: &HistorySpec, menu: &[Ty], relaxed: bool) -> Vec
     for (i, f) in spec.init.iter().enumerate() {
         let ty = menu[pick(f.ty_sel, menu.len())].clone();
         let transient = if f.transient { Some(sample_val(&ty, DEFAULT_CFG, spec.seed ^ (i as u64 + 1))) } else { None };
-        cur.fields.push(Field { name: format!("f{i}"), ty, transient, opt_spelling: (f.ty_sel % 3) as u8 });
+        // (some names carry leading underscores, as fields kept only for their side effects do)
+        let us = match f.ty_sel % 11 {
+            3 => "_",
+            7 => "__",
+            _ => "",
+        };
+        cur.fields.push(Field { name: format!("{us}f{i}"), ty, transient, opt_spelling: (f.ty_sel % 3) as u8 });
     }
     let mut versions = vec![cur.clone()];
     for (si, st) in spec.steps.iter().enumerate() {
@@ -116,7 +122,7 @@ pub fn build_history_opts(spec: &HistorySpec, menu: &[Ty], relaxed: bool) -> Vec
         match kind {
             StepKind::Add => {
                 let ty = menu[pick(st.ty_sel, menu.len())].clone();
-                let name = format!("a{}", si + 1);
+                let name = format!("{}a{}", if st.sel % 9 == 4 { "_" } else { "" }, si + 1);
                 let default = sample_val(&ty, DEFAULT_CFG, spec.seed ^ ((si as u64 + 1) << 20));
                 let pos = pick(st.pos_sel, cur.fields.len() + 1);
                 cur.fields.insert(pos, Field { name: name.clone(), ty, transient: None, opt_spelling: (st.sel % 3) as u8 });
@@ -189,13 +195,17 @@ pub fn build_history_positional(spec: &HistorySpec, menu: &[Ty]) -> Vec<Record> 
 }
 
 pub fn tuple_holder(name: &str, r: &Record) -> Arc<Decl> {
+    variant_holder(name, r, Shape::Tuple)
+}
+
+pub fn variant_holder(name: &str, r: &Record, shape: Shape) -> Arc<Decl> {
     Arc::new(Decl {
         name: name.to_string(),
         body: DeclBody::Enum {
             sorted: false,
             variants: vec![
                 Variant { name: "Nil".into(), shape: Shape::Unit, transient: false, record: Record { fields: vec![], steps: vec![] } },
-                Variant { name: "Rec".into(), shape: Shape::Tuple, transient: false, record: r.clone() },
+                Variant { name: "Rec".into(), shape, transient: false, record: r.clone() },
             ],
         },
     })
@@ -363,7 +373,13 @@ fn build_variant(name: String, vs: &VariantSpec, menu: &[Ty]) -> Variant {
         _ => Shape::Struct,
     };
     if shape == Shape::Unit {
-        return Variant { name, shape, transient: vs.transient, record: Record { fields: vec![], steps: vec![] } };
+        // a constructor that used to have fields: its own evolution says so, the declaration is a unit variant
+        let steps = match vs.version_sel % 5 {
+            1 => vec![Step::Removed { name: "gone".into() }],
+            3 => vec![Step::Removed { name: "gone".into() }, Step::Removed { name: "_also".into() }],
+            _ => vec![],
+        };
+        return Variant { name, shape, transient: vs.transient, record: Record { fields: vec![], steps } };
     }
     let mut hist = vs.hist.clone();
     if shape == Shape::Tuple {
@@ -618,6 +634,43 @@ pub fn compiled_batch(seed: u64, n_hist: usize, n_fam: usize) -> Batch {
         steps.push(Step::MadeOptional { name: "first".into() });
         specials.push(struct_decl("Max254", &Record { fields: vec![f("first", Ty::Option(a(Ty::U16))), f("last", Ty::Str)], steps }));
     }
+    // unit-only enums with explicit discriminants (render.rs spells them for names starting with "Disc"): constructor
+    // ids are positions, whatever the discriminants say
+    let unit = |n: &str| Variant { name: n.into(), shape: Shape::Unit, transient: false, record: Record { fields: vec![], steps: vec![] } };
+    specials.push(Arc::new(Decl { name: "DiscU".into(), body: DeclBody::Enum { sorted: false, variants: vec![unit("Low"), unit("High"), unit("Critical"), unit("Boom")] } }));
+    specials.push(Arc::new(Decl { name: "DiscS".into(), body: DeclBody::Enum { sorted: true, variants: vec![unit("Pear"), unit("Apple"), unit("Quince")] } }));
+    // two pairs of declarations with the SAME identifier in different modules and different histories (vgen puts the
+    // `..Other` one into a module of its own and aliases it)
+    specials.push(struct_decl("Twin", &Record { fields: vec![f("id", Ty::U32), f("name", Ty::Str)], steps: vec![Step::Added { name: "name".into(), default: Val::str("anon") }] }));
+    specials.push(struct_decl(
+        "TwinOther",
+        &Record { fields: vec![f("id", Ty::Option(a(Ty::U32))), f("tags", Ty::Vec(a(Ty::Str)))], steps: vec![Step::MadeOptional { name: "id".into() }, Step::Added { name: "tags".into(), default: Val::Seq(vec![]) }, Step::Removed { name: "name".into() }] },
+    ));
+    specials.push(Arc::new(Decl {
+        name: "TwinE".into(),
+        body: DeclBody::Enum {
+            sorted: false,
+            variants: vec![
+                Variant { name: "Circle".into(), shape: Shape::Struct, transient: false, record: Record { fields: vec![f("r", Ty::U8)], steps: vec![] } },
+                Variant { name: "Dot".into(), shape: Shape::Unit, transient: false, record: Record { fields: vec![], steps: vec![] } },
+            ],
+        },
+    }));
+    specials.push(Arc::new(Decl {
+        name: "TwinEOther".into(),
+        body: DeclBody::Enum {
+            sorted: false,
+            variants: vec![
+                Variant { name: "Dot".into(), shape: Shape::Unit, transient: false, record: Record { fields: vec![], steps: vec![Step::Removed { name: "weight".into() }] } },
+                Variant {
+                    name: "Circle".into(),
+                    shape: Shape::Struct,
+                    transient: false,
+                    record: Record { fields: vec![f("r", Ty::Option(a(Ty::U8))), f("label", Ty::Str)], steps: vec![Step::Added { name: "label".into(), default: Val::str("c") }, Step::MadeOptional { name: "r".into() }] },
+                },
+            ],
+        },
+    }));
     // ---- histories and families, interleaved so that later ones can nest earlier ones
     let mut histories = Vec::new();
     let mut dedup_histories = Vec::new();
@@ -661,6 +714,13 @@ pub fn compiled_batch(seed: u64, n_hist: usize, n_fam: usize) -> Batch {
         let spec = draw(&hs, &mut r);
         let versions = build_history_positional(&spec, &static_menu(false));
         tuple_histories.push(versions.iter().enumerate().map(|(v, rec)| tuple_holder(&format!("T{t}V{v}"), rec)).collect());
+    }
+    // struct-variant histories S{s}V{v} = { Nil, Rec { .. } }: every step kind; a version without declared fields is a
+    // unit variant that carries the evolution attribute (checked like the tuple-variant ones)
+    for t in 0..(n_hist / 3).max(4) {
+        let spec = draw(&hs, &mut r);
+        let versions = build_history(&spec, &static_menu(false));
+        tuple_histories.push(versions.iter().enumerate().map(|(v, rec)| variant_holder(&format!("S{t}V{v}"), rec, if rec.fields.is_empty() { Shape::Unit } else { Shape::Struct })).collect());
     }
     Batch { histories, dedup_histories, families, tuple_histories, specials }
 }
